@@ -172,6 +172,15 @@ class StmtMixin:
                     def f(s2, vs):
                         return self.delitem(s2, vs[0], vs[1], n)
                     if isinstance(t.slice, ast.Slice):
+                        sl = t.slice
+                        if sl.lower is None and sl.upper is None and sl.step is None:
+                            # `del lst[:]` on a list/deque: documented to remove every item (== lst.clear())
+                            def h(s2, o, _n=n):
+                                if isinstance(o, Ref) and isinstance(s2.get(o), HList):
+                                    return self.call_method(s2, o, "clear", [], {}, _n)
+                                raise Unsupported("del of full slice on a non-list", _n)
+                            nxt.extend(self._lift(seq(self.ev(t.value, s, fr), h)))
+                            continue
                         raise Unsupported("del of slice", n)
                     nxt.extend(self._lift(seq(self.ev_list([t.value, t.slice], s, fr), f)))
                 elif isinstance(t, ast.Attribute):
@@ -498,6 +507,8 @@ class StmtMixin:
                     return isinstance(h.items, list)
                 return False
             if isinstance(v, (Sym, SSeq)):
+                return False
+            if getattr(v, "is_abstract_iterable", False):
                 return False
             return True
         except Unsupported:
